@@ -58,7 +58,15 @@ def get_exception_name(exception: Exception) -> str:
     """
     Gets the name of the exception (e.g., IndexError gives ``"IndexError"``).
     """
-    return exception.__class__.__name__
+    try:
+        name = type(exception).__name__
+    except Exception:
+        # A metaclass of the student's may say anything about the name
+        name = None
+    if not isinstance(name, str) or not name:
+        # ... and a class can be given an empty name
+        return "Exception"
+    return str.__str__(name)
 
 
 def add_context_to_error(e, message):
